@@ -449,4 +449,69 @@ theorem agree_run (x : Ext) (hx : ExtLaw x) (cfg : Cfg) (cs : ColStyles) :
       (fun res hres => hacc res (List.mem_cons_of_mem _ hres))
     simpa [rowOps, List.append_assoc] using this
 
+/-! ### the explicit roll-back of `SetRow` (`setRowRaw`) has the effect `setRow` states -/
+
+theorem rowLoop_spec (x : Ext) (cs : ColStyles) (rs row : Int) : ∀ (items : List Item) (col : Int) (w : BW),
+    match rowCells x cs rs row col items with
+    | .error e => ∃ p, rowLoop x cs rs row col items w = (w.write p, some e)
+    | .ok cells => rowLoop x cs rs row col items w = (w.write (cells.flatMap (writeCell x)), none) := by
+  intro items
+  induction items with
+  | nil => intro col w; simp [rowCells, rowLoop, BW.write]
+  | cons it rest ih =>
+    intro col w
+    unfold rowCells rowLoop
+    by_cases hs : it.isSkip = true
+    · simp only [hs, if_true]; exact ih (col + 1) w
+    · have hs' : it.isSkip = false := by simpa using hs
+      simp only [hs', Bool.false_eq_true, if_false]
+      cases hc : coordinatesToCellName col row false with
+      | error e => dsimp only; exact ⟨[], by simp [BW.write]⟩
+      | ok ref =>
+        dsimp only
+        cases hm : mkCell x cs rs ref col it with
+        | error e => dsimp only; exact ⟨[], by simp [BW.write]⟩
+        | ok c =>
+          dsimp only
+          have h := ih (col + 1) (w.write (writeCell x c))
+          cases hr : rowCells x cs rs row (col + 1) rest with
+          | error e =>
+            rw [hr] at h; obtain ⟨p, hp⟩ := h
+            dsimp only
+            exact ⟨writeCell x c ++ p, by rw [hp]; simp [BW.write]⟩
+          | ok cells => rw [hr] at h; dsimp only at h ⊢; rw [h]; simp [BW.write]
+
+theorem truncate_write (w : BW) (p : Bytes) : (w.write p).truncate w.buf.length = w := by
+  cases w; simp [BW.write, BW.truncate]
+
+theorem setRowRaw_eq_setRow (x : Ext) (cfg : Cfg) (s : SW) (cell : Bytes) (values : List Item) (o : RowOpts) :
+    setRowRaw x cfg s cell values o = setRow x cfg s cell values o := by
+  unfold setRowRaw setRow
+  cases cellNameToCoordinates cell with
+  | error e => rfl
+  | ok cr =>
+    obtain ⟨col, row⟩ := cr
+    dsimp only
+    split
+    · rfl
+    · cases marshalAttrs o with
+      | error e => rfl
+      | ok attrs =>
+        dsimp only
+        have h := rowLoop_spec x s.colStyles o.style row values col
+          ((writeSheetData s).raw.write (lit "<row r=\"" ++ itoaInt row ++ lit "\"" ++ attrs ++ lit ">"))
+        cases hr : rowCells x s.colStyles o.style row col values with
+        | error e =>
+          rw [hr] at h; obtain ⟨p, hp⟩ := h
+          rw [hp]; dsimp only
+          cases s with
+          | mk raw rows sw mc mcs cols n pre log preW =>
+            cases raw with
+            | mk tmp buf =>
+              cases sw <;> simp [writeSheetData, BW.write, BW.truncate]
+        | ok cells =>
+          rw [hr] at h
+          rw [h]; dsimp only
+          simp [renderRow, BW.write]
+
 end XlModel.Stream
